@@ -43,7 +43,7 @@ pub enum AlphaKind {
     Both,
 }
 
-fn alphabet_for(kind: AlphaKind, n: usize) -> Alphabet {
+pub fn alphabet_for(kind: AlphaKind, n: usize) -> Alphabet {
     match kind {
         AlphaKind::Ranges => Alphabet::Grid(12),
         AlphaKind::Shuffles => Alphabet::Rep { r: 479_001_600, k: 24 },
@@ -156,7 +156,7 @@ macro_rules! with_leaf {
     };
 }
 
-fn leaf_configs(max_n: usize) -> Vec<Config> {
+pub fn leaf_configs(max_n: usize) -> Vec<Config> {
     let mut leaves = vec![Leaf::Best, Leaf::Worst, Leaf::Random];
     for k in 1..=max_n + 1 {
         leaves.push(Leaf::Tour(k));
@@ -222,7 +222,7 @@ fn combo_oracles(k: usize, w: Vec<u32>) -> (Box<dyn Fn(usize) -> BTreeSet<ErrKin
     )
 }
 
-fn combo_configs(quick: bool) -> Vec<Config> {
+pub fn combo_configs(quick: bool) -> Vec<Config> {
     let ws: Vec<i64> = vec![0, 1, 2];
     let mut out = vec![];
     let t2 = || Tournament::new(NonZeroUsize::new(2).unwrap());
@@ -282,7 +282,7 @@ fn combo_configs(quick: bool) -> Vec<Config> {
     out
 }
 
-fn pop_of(values: &[i64]) -> Pop {
+pub fn pop_of(values: &[i64]) -> Pop {
     let rows: Vec<Vec<i64>> = values.iter().map(|v| vec![*v, (v * 7) % 3]).collect();
     mk_pop_matrix(&rows)
 }
